@@ -20,21 +20,23 @@ Want(s, v) == IF Valid(s, v, "plain") THEN "A" ELSE "R"
 Acc(b) == IF b THEN "A" ELSE "R"
 ModelAgrees(line) ==
    LET vs == TheVals(line) IN
-   \A i \in DOMAIN vs : /\ line.of[i] = Acc(Accepts(line.s, vs[i], "f64"))
-                        /\ line.om[i] = Acc(Accepts(line.s, vs[i], "f64"))
+   \A i \in DOMAIN vs : LET af == Acc(Accepts(line.s, vs[i], "f64")) IN
+                        /\ line.of[i] = af /\ line.om[i] = af
                         /\ line.on[i] = Acc(Accepts(line.s, vs[i], "num"))
 
+Forms == {"of", "on", "om", "og"}
+(* the reference semantics is evaluated once per (schema, value) and compared with every form *)
 Mismatches(line) ==
    LET vs == TheVals(line) IN
-   {m \in [i : DOMAIN vs, form : {"of", "on", "om", "og"}] : line[m.form][m.i] # Want(line.s, vs[m.i])}
+   UNION {LET w == Want(line.s, vs[i]) IN {[i |-> i, form |-> f, want |-> w] : f \in {g \in Forms : line[g][i] # w}} : i \in DOMAIN vs}
 
 Shared(line) == "share" \in DOMAIN line      \* repeated sub-schemas realised as references to one shared component
 
 Report(line, m) ==
    LET v == TheVals(line)[m.i] IN
    [case |-> line.case, s |-> line.s, share |-> Shared(line), i |-> m.i, v |-> v, form |-> m.form,
-    got |-> line[m.form][m.i], want |-> Want(line.s, v),
-    class |-> Class(line, m.i, m.form, v, Want(line.s, v))]
+    got |-> line[m.form][m.i], want |-> m.want,
+    class |-> Class(line, m.i, m.form, v, m.want)]
 
 LineOK(line) ==
    IF line.load # "ok"
